@@ -337,10 +337,50 @@ def ctor_convention(ctx):
                 ctx.fail(cid, 'base.eul2r', 'mismatch', P, 'differs from Rz Ry Rz by %.3g' % ref.maxdiff(R, ref.eul(r, p, y)))
 
 
+def ctor_class_convention(ctx):
+    """the class constructors follow the documented orders too, for a single triple and for an N x 3 array of triples"""
+    import spatialmath as sm
+    tier, seed = ctx.tier, ctx.seed
+    SA = c01.small_angles(tier, seed)
+    PA = [x for x in c01.pitch_angles(tier, seed) if '1e-' not in x[0]]
+    triples = [((rn, r), (pn, p), (yn, y)) for (rn, r), (pn, p), (yn, y) in itertools.product(SA, PA, SA)]
+    for cn, C in (('SO3', sm.SO3), ('SE3', sm.SE3), ('UnitQuaternion', sm.UnitQuaternion)):
+        for order in c01.ORDERS + [None]:
+            for unit in ('rad', 'deg'):
+                k = 1.0 if unit == 'rad' else 180 / PI
+                fn = 'RPY' if order else 'Eul'
+                rf = (lambda r, p, y: ref.rpy(r, p, y, order)) if order else ref.eul
+                kw = dict(unit=unit, order=order) if order else dict(unit=unit)
+                for N in (1, 2, 3, 5):
+                    if N > 1 and cn == 'UnitQuaternion':
+                        continue
+                    for start in range(0, len(triples) - N, max(1, len(triples) // 12)):
+                        sel = triples[start:start + N]
+                        cid = 'C05/%s.%s/%s/%s/N=%d/start=%d' % (cn, fn, order, unit, N, start)
+                        if not ctx.want(cid):
+                            continue
+                        ctx.case(cid, key=cid)
+                        P = dict(entry=cn, fn=fn, order=str(order), unit=unit, N=N)
+                        A = np.array([[r * k, p * k, y * k] for (_, r), (_, p), (_, y) in sel])
+                        ok, X = call(getattr(C, fn), A[0].copy() if N == 1 else A.copy(), **kw)
+                        site = '%s.%s' % (cn, fn)
+                        if not ok:
+                            ctx.fail(cid, site, 'raises:' + type(X).__name__, P, '%r' % (X,))
+                            continue
+                        if len(X.data) != N:
+                            ctx.fail(cid, site, 'mismatch', dict(P, what='count'), 'expected %d values, got %d' % (N, len(X.data)))
+                            continue
+                        for j, ((_, r), (_, p), (_, y)) in enumerate(sel):
+                            got = ref.q2r(X.data[j]) if cn == 'UnitQuaternion' else np.asarray(X.data[j])[:3, :3]
+                            if ref.maxdiff(got, rf(r, p, y)) > TOL:
+                                ctx.fail(cid, site, 'mismatch', dict(P, what='convention', j=j), 'value %d differs from the documented product by %.3g' % (j, ref.maxdiff(got, rf(r, p, y))))
+                                break
+
+
 def shards(tier, seed):
     n = 6 if tier == 'quick' else 24
     out = [('rpy', k, n) for k in range(n)] + [('eul', k, n) for k in range(n)]
-    out += [('angvec',), ('planar',), ('ctor',)]
+    out += [('angvec',), ('planar',), ('ctor',), ('ctorclass',)]
     return out
 
 
@@ -354,5 +394,7 @@ def run_shard(ctx, shard):
         angvec_cases(ctx)
     elif k == 'planar':
         planar_cases(ctx)
+    elif k == 'ctorclass':
+        ctor_class_convention(ctx)
     else:
         ctor_convention(ctx)
